@@ -44,7 +44,10 @@ def make_records(segs, walks, rnd, blank_names=False):
             pre = ["q", "q", "@q", "#q", "7"][wi % 5]          # read names are free text (FASTQ-style '@', '#', leading digit)
             if blank_names and wi % 4 == 1:                     # GraphAligner keeps the FASTQ comment: a blank inside column 1
                 pre = pre + f"{wi}x ch=5 "                      # (re-emitting commands cut the name at the blank: the part before it is unique)
-            lines.append(f"{pre}{wi}{uni}_{ps}_{pe}\t{L + 2}\t1\t{L + 1}\t+\t{path}\t{plen}\t{ps}\t{pe}\t{a}\t{L}\t{(ps * 7 + pe) % 61}\ttp:A:P\tcg:Z:{cg}\tNM:i:3{tail}")
+            nm = f"{pre}{wi}{uni}_{ps}_{pe}"
+            if wi % 6 == 5:      # several alignments of ONE read (same name, other intervals / walks): names do not identify records
+                nm = "multi_read"
+            lines.append(f"{nm}\t{L + 2}\t1\t{L + 1}\t+\t{path}\t{plen}\t{ps}\t{pe}\t{a}\t{L}\t{(ps * 7 + pe) % 61}\ttp:A:P\tcg:Z:{cg}\tNM:i:3{tail}")
     rnd.shuffle(lines)
     return lines
 
